@@ -100,12 +100,9 @@ func main() {
 		r.Inconclusive("hook auth.cache.set.enter never reached: coalescing rounds were not synchronised")
 	}
 	floor := r.N(4000, 100000)
-	if r.Counter("late_joiners_sharing_the_inflight_fetch") < int64(r.N(60, 1500)) {
-		r.Inconclusive(fmt.Sprintf("only %d late-join probes completed", r.Counter("late_joiners_sharing_the_inflight_fetch")))
-	}
-	if r.Counter("coalesced_groups") < int64(r.N(800, 25000)) || r.Counter("handovers_after_cancelled_owner") < int64(r.N(300, 10000)) {
-		fmt.Printf("BROKEN: property=C16 too few coalescing observations (coalesced_groups=%d handovers=%d)\n",
-			r.Counter("coalesced_groups"), r.Counter("handovers_after_cancelled_owner"))
+	if r.Counter("late_join_probes") < int64(r.N(150, 4000)) || r.Counter("coalesced_groups") < int64(r.N(800, 25000)) || r.Counter("handovers_after_cancelled_owner") < int64(r.N(300, 10000)) {
+		fmt.Printf("BROKEN: property=C16 too few coalescing observations (coalesced_groups=%d handovers=%d late_join_probes=%d)\n",
+			r.Counter("coalesced_groups"), r.Counter("handovers_after_cancelled_owner"), r.Counter("late_join_probes"))
 		code := r.Write(floor)
 		if code == 0 {
 			code = 2
